@@ -111,6 +111,16 @@ func c15Run(v *V, scen int, keys []string, vals []string) string {
 		p.AddGroup("Application Options", "", &c15Req{})
 		_, err := p.ParseArgs(nil)
 		return vErrString(err)
+	case 7: // unknown command: several names (and aliases) at the same distance
+		p := NewNamedParser("prog", None)
+		for _, n := range []string{"add", "list", "lint", "remove"} {
+			c, _ := p.AddCommand(n, "", "", &struct{}{})
+			if n == "remove" {
+				c.Aliases = []string{"lisp", "link"}
+			}
+		}
+		_, err := p.ParseArgs([]string{"li" + keys[0]})
+		return vErrString(err)
 	case 6: // final values after parsing map options
 		d := &c15Ini{}
 		p := NewNamedParser("prog", None)
